@@ -391,9 +391,10 @@ structure TreeBuildOK (σ : Leaves) (st : Store) (fuel : Nat) : Prop where
   appendSel : ∀ op S res, Good σ S → S.isSelect = true → op.wfOn S.columns = true →
     appendUnarySel st fuel (.u op) S = .ok res → Good σ (res.get S) ∧ AppendOK σ op S (res.get S)
   appendUnary : ∀ op x res, Good σ x → op.wfOn x.columns = true →
-    DafRel.appendUnary st fuel (.u op) x = .ok res → Good σ (res.get x) ∧ FinishOK σ op x (res.get x)
+    DafRel.appendUnary st fuel (.u op) x = .ok res →
+    Good σ (res.get x) ∧ FinishOK σ op x (res.get x) ∧ (res.get x).isSelect = true
   apply : ∀ op x res, Good σ x → applyOp st fuel (.u op) x {} = .ok res →
-    Good σ (res.get x) ∧ FinishOK σ op x (res.get x)
+    Good σ (res.get x) ∧ FinishOK σ op x (res.get x) ∧ (res.get x).isSelect = true
 
 theorem treeBuild_zero (σ : Leaves) (st : Store) : TreeBuildOK σ st 0 :=
   ⟨fun t res _ h => (by unfold DafRel.conform at h; cases h),
@@ -547,7 +548,7 @@ theorem appendSel_step (σ : Leaves) (st : Store) (fuel : Nat) (ih : TreeBuildOK
       rcases hx with rfl | rfl
       · exact (hbr _ _ _ hk).1
       · exact (hbr _ _ _ hk).2
-    exact (ih.apply (.proj c) x res' gx hx').2
+    exact (ih.apply (.proj c) x res' gx hx').2.1
   obtain ⟨A, K⟩ := appendUnarySel_sound σ st fuel op S res okS hop hpush h
   refine ⟨Good.sel _ A.ok (by rw [A.engine]; exact gS.sql) ?_ ?_, A⟩
   · intro l r c hk
@@ -563,7 +564,8 @@ theorem appendSel_step (σ : Leaves) (st : Store) (fuel : Nat) (ih : TreeBuildOK
 
 theorem appendUnary_step (σ : Leaves) (st : Store) (fuel : Nat) (ih : TreeBuildOK σ st fuel) :
     ∀ op x res, Good σ x → op.wfOn x.columns = true →
-      DafRel.appendUnary st (fuel+1) (.u op) x = .ok res → Good σ (res.get x) ∧ FinishOK σ op x (res.get x) := by
+      DafRel.appendUnary st (fuel+1) (.u op) x = .ok res →
+      Good σ (res.get x) ∧ FinishOK σ op x (res.get x) ∧ (res.get x).isSelect = true := by
   intro op x res gx hop h
   rw [DafRel.appendUnary] at h
   simp only [gx.sql, bind, Except.bind, pure, Except.pure] at h
@@ -581,7 +583,7 @@ theorem appendUnary_step (σ : Leaves) (st : Store) (fuel : Nat) (ih : TreeBuild
       have hres : res.get x = r2.get (ct.get x) := by
         cases r2 <;> cases ct <;> (simp only at h; injection h with h; subst h; rfl)
       rw [hres]
-      refine ⟨g2, a2.ok.wf, a2.ok.truthful, ?_, ?_, ?_⟩
+      refine ⟨g2, ⟨a2.ok.wf, a2.ok.truthful, ?_, ?_, ?_⟩, a2.ok.isSel⟩
       · rw [a2.sem_eq, cs.sem_eq]
         exact UOp.sem_congr op _ _ (UOp.appliedColumns_congr op _ _ cs.cols) _
       · intro c
@@ -590,7 +592,7 @@ theorem appendUnary_step (σ : Leaves) (st : Store) (fuel : Nat) (ih : TreeBuild
 
 theorem apply_step (σ : Leaves) (st : Store) (fuel : Nat) (ih : TreeBuildOK σ st fuel) :
     ∀ op x res, Good σ x → applyOp st (fuel+1) (.u op) x {} = .ok res →
-      Good σ (res.get x) ∧ FinishOK σ op x (res.get x) := by
+      Good σ (res.get x) ∧ FinishOK σ op x (res.get x) ∧ (res.get x).isSelect = true := by
   intro op x res gx h
   rw [applyOp_eq_spec] at h
   unfold applyOpSpec at h
@@ -612,9 +614,9 @@ theorem apply_step (σ : Leaves) (st : Store) (fuel : Nat) (ih : TreeBuildOK σ 
       · subst ho
         exact ih.appendUnary _ x r1 gx hwf h1
       · subst ho
-        obtain ⟨g, F⟩ := ih.appendUnary .identity x r1 gx (by simp [UOp.wfOn, UOp.columnsRequired, Cols.subset_iff]) h1
+        obtain ⟨g, F, hsel⟩ := ih.appendUnary .identity x r1 gx (by simp [UOp.wfOn, UOp.columnsRequired, Cols.subset_iff]) h1
         have N := noop_sound σ op x gx.wf gx.truthful hnoop
-        refine ⟨g, F.wf, F.truthful, ?_, ?_, F.engine⟩
+        refine ⟨g, ⟨F.wf, F.truthful, ?_, ?_, F.engine⟩, hsel⟩
         · rw [F.sem_eq]
           simp only [UOp.sem]
           exact N.sem_eq
@@ -630,5 +632,98 @@ theorem treeBuild_sound (σ : Leaves) (st : Store) : ∀ fuel, TreeBuildOK σ st
     let ih := treeBuild_sound σ st fuel
     ⟨conform_step σ st fuel ih, appendSel_step σ st fuel ih, appendUnary_step σ st fuel ih,
       apply_step σ st fuel ih⟩
+
+end DafRel
+
+namespace DafRel
+
+/-! ### The `join` factory inside the SQL engine (`PartialJoin` through `apply`) -/
+
+theorem subset_congr_right (a b b' : Cols) (hbb : ∀ t, t ∈ b' ↔ t ∈ b) (ha : a.subset b = true) :
+    a.subset b' = true :=
+  (Cols.subset_iff _ _).mpr fun t ht => (hbb t).mpr ((Cols.subset_iff _ _).mp ha t ht)
+
+/-- `sql.Engine.append_binary(Join, lhs, rhs)` on two Good trees. -/
+theorem appendBinarySql_join_sound (σ : Leaves) (st : Store) (fuel : Nat) (j : JoinOp) (l r : Rel)
+    (gl : Good σ l) (gr : Good σ r) (hcl : j.minCols.subset l.columns = true)
+    (hcr : j.minCols.subset r.columns = true)
+    (hp : j.pred.columnsRequired.subset (l.columns.union r.columns) = true)
+    (res : BRes) (h : appendBinarySql st fuel (.join j) l r = .ok res) :
+    ∃ T, res = .new T ∧ Good σ T ∧ SelOK σ T ∧ sem σ T = joinRows j.minCols j.pred (sem σ l) (sem σ r) ∧
+      (∀ c, c ∈ T.columns ↔ c ∈ l.columns.union r.columns) ∧ T.engine = l.engine := by
+  cases fuel with
+  | zero => rw [appendBinarySql] at h; cases h
+  | succ fuel =>
+    rw [appendBinarySql] at h
+    simp only [bind, Except.bind, pure, Except.pure] at h
+    split at h
+    · cases h
+    · rename_i heng
+      simp only [Bool.or_eq_true, bne_iff_ne, ne_eq, not_or, Decidable.not_not] at heng
+      cases h1 : conform st fuel l with
+      | error e => simp [h1] at h
+      | ok cl =>
+        cases h2 : conform st fuel r with
+        | error e => simp [h1, h2] at h
+        | ok cr =>
+          simp only [h1, h2] at h
+          obtain ⟨g1, c1⟩ := (treeBuild_sound σ st fuel).conform l cl gl h1
+          obtain ⟨g2, c2⟩ := (treeBuild_sound σ st fuel).conform r cr gr h2
+          cases h3 : appendBinarySel st fuel (.join j) (cl.get l) (cr.get r) with
+          | error e => simp [h3] at h
+          | ok br =>
+            simp only [h3] at h
+            cases fuel with
+            | zero => rw [appendBinarySel] at h3; cases h3
+            | succ fuel' =>
+              have hun : ∀ t, t ∈ (cl.get l).columns.union (cr.get r).columns ↔ t ∈ l.columns.union r.columns := by
+                intro t; rw [Cols.mem_union, Cols.mem_union, c1.cols t, c2.cols t]
+              obtain ⟨S, hS, gS, okS, semS, colS, engS⟩ :=
+                join_sel_sound σ st fuel' j _ _ g1 g2 c1.ok.isSel c2.ok.isSel
+                  (subset_congr_right _ _ _ c1.cols hcl) (subset_congr_right _ _ _ c2.cols hcr)
+                  (subset_congr_right _ _ _ hun hp) (by rw [c1.engine, c2.engine]; exact heng.1) br h3
+              subst hS
+              simp only [BRes.get] at h
+              injection h with h
+              exact ⟨S, h.symm, gS, okS, by rw [semS, c1.sem_eq, c2.sem_eq],
+                fun c => (colS c).trans (hun c), by rw [engS, c1.engine]⟩
+
+/-- The operands of a partial join in their order. -/
+def PJoin.lhs (p : PJoin) (t : Rel) : Rel := if p.fixedIsLhs then p.fixed else t
+def PJoin.rhs (p : PJoin) (t : Rel) : Rel := if p.fixedIsLhs then t else p.fixed
+
+/-- `_append_unary_to_select(PartialJoin, select)`. -/
+theorem appendSel_pj_sound (σ : Leaves) (st : Store) (fuel : Nat) (p : PJoin) (S : Rel)
+    (gS : Good σ S) (gF : Good σ p.fixed)
+    (hcl : p.join.minCols.subset (p.lhs S).columns = true) (hcr : p.join.minCols.subset (p.rhs S).columns = true)
+    (hp : p.join.pred.columnsRequired.subset ((p.lhs S).columns.union (p.rhs S).columns) = true)
+    (res : Res) (h : appendUnarySel st (fuel+1) (.pj p) S = .ok res) :
+    ∃ T, res = .new T ∧ Good σ T ∧ SelOK σ T ∧
+      sem σ T = joinRows p.join.minCols p.join.pred (sem σ (p.lhs S)) (sem σ (p.rhs S)) ∧
+      (∀ c, c ∈ T.columns ↔ c ∈ (p.lhs S).columns.union (p.rhs S).columns) ∧ T.engine = (p.lhs S).engine := by
+  rw [appendUnarySel] at h
+  simp only [bind, Except.bind, pure, Except.pure] at h
+  unfold PJoin.lhs PJoin.rhs at *
+  cases hf : p.fixedIsLhs with
+  | true =>
+    simp only [hf, if_true] at h hcl hcr hp ⊢
+    cases hb : appendBinarySql st fuel (.join p.join) p.fixed S with
+    | error e => simp [hb] at h
+    | ok br =>
+      obtain ⟨T, hT, rest⟩ := appendBinarySql_join_sound σ st fuel p.join _ _ gF gS hcl hcr hp br hb
+      subst hT
+      simp only [hb, BRes.get] at h
+      injection h with h
+      exact ⟨T, h.symm, rest⟩
+  | false =>
+    simp only [hf, Bool.false_eq_true, if_false] at h hcl hcr hp ⊢
+    cases hb : appendBinarySql st fuel (.join p.join) S p.fixed with
+    | error e => simp [hb] at h
+    | ok br =>
+      obtain ⟨T, hT, rest⟩ := appendBinarySql_join_sound σ st fuel p.join _ _ gS gF hcl hcr hp br hb
+      subst hT
+      simp only [hb, BRes.get] at h
+      injection h with h
+      exact ⟨T, h.symm, rest⟩
 
 end DafRel
